@@ -1275,43 +1275,75 @@ Proof.
 Qed.
 
 (* ================================================================= *)
-(* 8. interval() + stop_token: no self-deadlock, no crash            *)
+(* 8. interval() generators + stop tokens on one scheduler           *)
 (* ================================================================= *)
 
 Definition iinv (s : ist) : Prop := i_owner s = false /\ heap_ok (i_sched s).
 
-Lemma istep_cases cb s o : o = [1] \/ o = [2] \/ o = [3] \/ o = [4] \/ istep cb s o = IOk s [1].
+Lemma stop_callback_ok tg s g : iinv s ->
+  exists s1, stop_callback false tg s g = IOk s1 [] /\ iinv s1 /\ i_stops s1 = i_stops s /\ i_clk s1 = i_clk s /\
+    i_next s1 = i_next s /\
+    exists l r, remove (i_sched s) (tg g) = Ok (l, r) /\ remove_spec (i_sched s) (tg g) l r /\ i_sched s1 = l /\
+      i_gens s1 = match r with
+                  | Some t => match e_p t with Some g' => set_nth (i_gens s) g' GDone | None => i_gens s end
+                  | None => i_gens s
+                  end.
 Proof.
-  destruct o as [|z l]; [auto 6|].
-  destruct z as [|p|p]; try (right; right; right; right; reflexivity).
-  destruct p as [[q|q|]|[q|[r|r|]|]|]; destruct l; try (right; right; right; right; reflexivity); auto 6.
+  intros [IO IH]. unfold stop_callback, acquire. rewrite IO. cbn [i_owner i_sched i_gens i_stops i_clk i_next].
+  destruct (remove_ok (i_sched s) (tg g) IH) as (l & r & E & H' & _ & _ & SP). rewrite E.
+  destruct r as [t|].
+  - assert (live t = true) as LT by (cbn [remove_spec] in SP; apply SP).
+    destruct (proj1 (live_some t) LT) as [g' EP]. rewrite EP.
+    eexists. split; [reflexivity|]. cbn [i_owner i_sched i_gens i_stops i_clk i_next].
+    split; [split; auto|]. repeat split; auto. exists l, (Some t). rewrite EP. auto.
+  - eexists. split; [reflexivity|]. cbn [i_owner i_sched i_gens i_stops i_clk i_next].
+    split; [split; auto|]. repeat split; auto. exists l, None. auto.
 Qed.
 
-Lemma istep_ok s o : iinv s -> exists s1 ob, istep false s o = IOk s1 ob /\ iinv s1 /\ (exists t, ob = 0 :: t \/ ob = 1 :: t).
+Definition ob01 (ob : list Z) : Prop := exists t, ob = 0 :: t \/ ob = 1 :: t.
+
+Lemma iobs01 s k : ob01 (iobs s k).
+Proof. eexists. left. reflexivity. Qed.
+
+Lemma one01 : ob01 [1].
+Proof. eexists. right. reflexivity. Qed.
+
+Lemma istep'_ok tg s x : iinv s -> exists s1 ob, istep' false tg s x = IOk s1 ob /\ iinv s1 /\ ob01 ob.
 Proof.
-  intros [IO IH].
-  assert (iinv s) as I by (split; assumption).
-  destruct (istep_cases false s o) as [->|[->|[->|[->|E]]]].
-  - cbn [istep]. destruct (i_gen s); eexists _, _; (split; [reflexivity|]); (split; [|eexists; eauto]); try exact I.
-    split; cbn [i_owner i_sched]; auto.
-  - cbn [istep]. destruct (i_gen s); try (eexists _, _; (split; [reflexivity|]); (split; [exact I|eexists; eauto]); fail).
-    all: destruct (i_stop s); eexists _, _; (split; [reflexivity|]); (split; [|eexists; eauto]);
-      split; cbn [i_owner i_sched schedule fst]; auto; apply heap_push_ok; exact IH.
-  - cbn [istep]. destruct (i_stop s); [eexists _, _; split; [reflexivity|]; split; [exact I|eexists; eauto]|].
-    assert (exists s1 ob, stop_callback false (mkI (i_sched s) (i_gen s) true (i_owner s)) = IOk s1 ob /\ iinv s1) as (s1 & ob & ES & I1).
-    { unfold stop_callback, acquire. cbn [i_owner i_sched i_gen i_stop]. rewrite IO. cbn [i_owner i_sched i_gen i_stop].
-      destruct (remove_ok (i_sched s) tag IH) as (l' & r & E & H' & _). rewrite E.
-      destruct r; eexists _, _; (split; [reflexivity|]); split; cbn [i_owner i_sched]; auto. }
-    destruct (i_gen s) eqn:G; try (eexists _, _; (split; [reflexivity|]); (split; [|eexists; eauto]); split; cbn [i_owner i_sched]; auto; fail).
-    all: rewrite ES; eexists _, _; (split; [reflexivity|]); (split; [exact I1|eexists; eauto]).
-  - cbn [istep]. unfold acquire. rewrite IO. cbn [i_sched].
-    destruct (get_expired_ok (i_sched s) 1 IH) as (l' & r & E & H' & _). rewrite E.
-    destruct r; eexists _, _; (split; [reflexivity|]); (split; [|eexists; eauto]); split; cbn [i_owner i_sched]; auto.
-  - rewrite E. eexists _, _. split; [reflexivity|]. split; [exact I|eexists; eauto].
+  intros I. pose proof I as [IO IH].
+  assert (forall g m, iinv (set_gen s g m)) as SG by (intros; split; assumption).
+  assert (forall g tp n, iinv (mkI (fst (schedule (i_sched s) (mkE tp (Some g) (tg g)))) (set_nth (i_gens s) g GSleeping)
+                                   (i_stops s) false n (i_next s)) /\
+                         forall nx, iinv (mkI (fst (schedule (i_sched s) (mkE tp (Some g) (tg g)))) (set_nth (i_gens s) g GSleeping)
+                                   (i_stops s) false n nx)) as SC.
+  { intros. split; [|intros nx]; split; cbn [i_owner i_sched schedule fst]; auto; apply heap_push_ok; exact IH. }
+  destruct x as [g|g|g| |]; cbn [istep'].
+  - destruct (gen_of s g); eexists _, _; (split; [reflexivity|]); auto using iobs01, one01.
+  - destruct (gen_of s g); try (eexists _, _; (split; [reflexivity|]); auto using iobs01, one01; fail).
+    + destruct (stop_of s g).
+      * destruct (stop_callback_ok tg s g I) as (s1 & E & I1 & _). rewrite E.
+        eexists _, _. split; [reflexivity|]. split; [destruct I1; split; assumption|apply iobs01].
+      * eexists _, _. split; [reflexivity|]. split; [apply SC|apply iobs01].
+    + destruct (stop_of s g); eexists _, _; (split; [reflexivity|]); (split; [|apply iobs01]); [apply SG|apply SC].
+  - destruct (stop_of s g); [eexists _, _; split; [reflexivity|]; auto using iobs01|].
+    set (s0 := mkI (i_sched s) (i_gens s) (set_nth (i_stops s) g true) (i_owner s) (i_clk s) (i_next s)).
+    assert (iinv s0) as I0 by (split; assumption).
+    destruct (stop_callback_ok tg s0 g I0) as (s1 & E & I1 & _).
+    destruct (gen_of s g); try (eexists _, _; (split; [reflexivity|]); auto using iobs01; fail).
+    all: rewrite E; eexists _, _; (split; [reflexivity|]); auto using iobs01.
+  - unfold acquire. rewrite IO. cbn [i_sched i_clk].
+    destruct (get_expired_ok (i_sched s) (i_clk s) IH) as (l' & r & E & H' & _ & SP). rewrite E.
+    destruct r as [t|tp|]; cbn [expired_spec] in SP.
+    + destruct SP as (LT & _). destruct (proj1 (live_some t) LT) as [g' EP]. rewrite EP.
+      eexists _, _. split; [reflexivity|]. split; [split; auto|apply iobs01].
+    + eexists _, _. split; [reflexivity|]. split; [split; auto|apply iobs01].
+    + eexists _, _. split; [reflexivity|]. split; [split; auto|apply iobs01].
+  - eexists _, _. split; [reflexivity|]. auto using one01.
 Qed.
 
-(* (no hang, no crash through the stop token) whatever the sequence of generator calls, request_stop and get_expired:
-   every call returns (the stop callback never re-acquires a mutex its thread holds, remove never leaves the array) *)
+(* (no hang, no crash through the stop tokens) whatever the sequence of generator calls, stop requests and get_expired
+   calls on up to three generators — and whatever idents the generators use: every call returns (a stop callback never
+   re-acquires a mutex its thread holds, remove never leaves the array) *)
 Theorem interval_no_deadlock ops :
   length (interval_run ops) = length ops /\
   Forall (fun ob => exists t, ob = 0 :: t \/ ob = 1 :: t) (interval_run ops).
@@ -1319,120 +1351,250 @@ Proof.
   unfold interval_run. assert (iinv ist0) as I0 by (split; [reflexivity|apply heap_ok_nil]).
   revert I0. generalize ist0. induction ops as [|o t IH]; intros s I; cbn [irun_from].
   - split; [reflexivity|constructor].
-  - destruct (istep_ok s o I) as (s1 & ob & E & I1 & SH). rewrite E.
+  - unfold istep. destruct (istep'_ok tag s (decode_iop o) I) as (s1 & ob & E & I1 & SH). rewrite E.
     destruct (IH s1 I1) as (L & F). cbn [length]. split; [rewrite L; reflexivity|]. constructor; assumption.
 Qed.
 
-(* ---- cancellation through the stop token hits exactly the generator's pending sleep ---- *)
-Definition gen_pending (s : ist) : Prop :=
-  match i_gen s with
-  | GSleeping => exists t, pending (i_sched s) = [t] /\ e_id t = tag
-  | _ => pending (i_sched s) = []
-  end.
+(* ---- a stop request cancels exactly the signalled generator's own pending sleep ---- *)
 
-Definition iinv2 (s : ist) : Prop := iinv s /\ gen_pending s.
+(* every pending sleep belongs to exactly one generator, which is asleep, and carries that generator's ident *)
+Record ginv (tg : nat -> Z) (s : ist) : Prop := mkG {
+  g_base : iinv s;
+  g_own : forall t, In t (pending (i_sched s)) -> exists g, e_p t = Some g /\ e_id t = tg g /\ gen_of s g = GSleeping;
+  g_nodup : NoDup (ppids (i_sched s));
+  g_sleep : forall g, gen_of s g = GSleeping -> In g (ppids (i_sched s)) }.
 
-Lemma perm_single {A} (t : A) l : Permutation [t] l -> l = [t].
-Proof. intros P. apply Permutation_length_1_inv. exact P. Qed.
+Lemma gen_of_set s g x g' : gen_of (set_gen s g x) g' = if (Nat.eqb g g' && Nat.ltb g (length (i_gens s)))%bool then x else gen_of s g'.
+Proof. unfold gen_of, set_gen. cbn [i_gens]. apply nth_set_nth. Qed.
 
-Lemma istep_ok2 s o : iinv2 s -> exists s1 ob, istep false s o = IOk s1 ob /\ iinv2 s1.
+Lemma nth_set_gens (l : list gstate) g x g' :
+  nth g' (set_nth l g x) GNone = if (Nat.eqb g g' && Nat.ltb g (length l))%bool then x else nth g' l GNone.
+Proof. apply nth_set_nth. Qed.
+
+Lemma sleeping_lt s g : gen_of s g = GSleeping -> (g < length (i_gens s))%nat.
 Proof.
-  intros [[IO IH] GP].
-  assert (iinv s) as I by (split; assumption).
-  destruct (istep_cases false s o) as [->|[->|[->|[->|E]]]].
-  - cbn [istep]. unfold gen_pending in GP.
-    destruct (i_gen s) eqn:G; eexists _, _; (split; [reflexivity|]); split; try exact I;
-      try (split; cbn [i_owner i_sched]; auto; fail); unfold gen_pending; cbn [i_gen i_sched]; try rewrite G; exact GP.
-  - cbn [istep]. unfold gen_pending in GP.
-    destruct (i_gen s) eqn:G;
-      try (eexists _, _; (split; [reflexivity|]); split; [exact I|unfold gen_pending; rewrite G; exact GP]; fail).
-    all: destruct (i_stop s); eexists _, _; (split; [reflexivity|]); (split; [split; cbn [i_owner i_sched schedule fst]; auto; apply heap_push_ok; exact IH|]);
-      unfold gen_pending; cbn [i_gen i_sched schedule fst]; try exact GP.
-    all: set (e := mkE 0 (Some 0%nat) tag); destruct (heap_push_ok (i_sched s) e IH) as (_ & P1 & _);
-      exists e; split; [|reflexivity]; apply perm_single; symmetry;
-      rewrite (pending_perm _ _ P1), (pending_cons_live e) by reflexivity; rewrite GP; reflexivity.
-  - cbn [istep]. destruct (i_stop s); [eexists _, _; split; [reflexivity|]; split; [exact I|exact GP]|].
-    destruct (remove_ok (i_sched s) tag IH) as (l' & r & E & H' & _ & _ & SP).
-    assert (stop_callback false (mkI (i_sched s) (i_gen s) true (i_owner s)) =
-            match r with Some _ => IOk (mkI l' GDone true false) [] | None => IOk (mkI l' (i_gen s) true false) [] end) as ES.
-    { unfold stop_callback, acquire. cbn [i_owner i_sched i_gen i_stop]. rewrite IO. cbn [i_owner i_sched i_gen i_stop].
-      rewrite E. destruct r; reflexivity. }
-    unfold gen_pending in GP.
-    destruct (i_gen s) eqn:G; try (eexists _, _; (split; [reflexivity|]); split; [split; cbn [i_owner i_sched]; auto|unfold gen_pending; cbn [i_gen i_sched]; exact GP]; fail).
-    + (* sleeping: the pending sleep carries the tag and is the one removed *)
-      rewrite ES. destruct GP as (t0 & EP & ET). destruct r as [t|]; cbn [remove_spec] in SP.
-      * destruct SP as (_ & _ & P). rewrite EP in P. apply perm_single in P.
-        eexists _, _. split; [reflexivity|]. split; [split; cbn [i_owner i_sched]; auto|].
-        unfold gen_pending. cbn [i_gen i_sched]. inversion P. reflexivity.
-      * exfalso. destruct SP as (_ & NO). apply (NO t0); [rewrite EP; left; reflexivity|exact ET].
-    + rewrite ES. destruct r as [t|]; cbn [remove_spec] in SP.
-      * exfalso. destruct SP as (_ & _ & P). rewrite GP in P. apply Permutation_nil in P. discriminate.
-      * destruct SP as (P & _). rewrite GP in P. apply Permutation_nil in P.
-        eexists _, _. split; [reflexivity|]. split; [split; cbn [i_owner i_sched]; auto|].
-        unfold gen_pending. cbn [i_gen i_sched]. exact P.
-  - cbn [istep]. unfold acquire. rewrite IO. cbn [i_sched].
-    destruct (get_expired_ok (i_sched s) 1 IH) as (l' & r & E & H' & _ & SP). rewrite E.
-    unfold gen_pending in GP.
-    destruct r as [t|tp|]; cbn [expired_spec] in SP; eexists _, _; (split; [reflexivity|]);
-      (split; [split; cbn [i_owner i_sched]; auto|]); unfold gen_pending; cbn [i_gen i_sched].
-    + destruct SP as (_ & _ & P & _). destruct (i_gen s).
-      3:{ destruct GP as (t0 & EP & _). rewrite EP in P. apply perm_single in P. inversion P. reflexivity. }
-      all: rewrite GP in P; apply Permutation_nil in P; discriminate.
-    + destruct SP as (_ & P & _). destruct (i_gen s).
-      3:{ destruct GP as (t0 & EP & ET). exists t0. split; [|exact ET]. rewrite EP in P. apply perm_single in P. exact P. }
-      all: rewrite GP in P; apply Permutation_nil in P; exact P.
-    + destruct SP as (-> & EP). destruct (i_gen s); try reflexivity.
-      destruct GP as (t0 & EP' & _). rewrite EP in EP'. discriminate.
-  - rewrite E. eexists _, _. split; [reflexivity|]. split; [exact I|exact GP].
+  unfold gen_of. intros H. destruct (Nat.lt_ge_cases g (length (i_gens s))) as [L|L]; [exact L|].
+  rewrite nth_overflow in H by exact L. discriminate.
+Qed.
+
+Lemma in_ppids_pending p l : In p (ppids l) -> exists t, In t (pending l) /\ e_p t = Some p.
+Proof. rewrite <- ppids_pending. apply In_ppids. Qed.
+
+(* removing the entry t (pid g0) from the pending set and moving generator g0 to a non-sleeping state x *)
+Lemma ginv_take tg s l' t g0 x nx clk st :
+  ginv tg s -> heap_ok l' -> e_p t = Some g0 -> Permutation (pending (i_sched s)) (t :: pending l') -> x <> GSleeping ->
+  ginv tg (mkI l' (set_nth (i_gens s) g0 x) st false clk nx).
+Proof.
+  intros [[IO IH] OWN ND SL] H' EP P NX.
+  pose proof (ppids_take _ _ _ _ EP P) as PP.
+  assert (NoDup (g0 :: ppids l')) as ND' by (eapply Permutation_NoDup; eassumption).
+  inversion ND' as [|? ? NI ND'']; subst.
+  split; cbn [i_sched i_gens i_owner]; unfold gen_of; cbn [i_gens].
+  - split; auto.
+  - intros u IU.
+    assert (In u (pending (i_sched s))) as IU' by (apply (Permutation_in _ (Permutation_sym P)); right; exact IU).
+    destruct (OWN u IU') as (g & EG & EI & GS). exists g. split; [exact EG|]. split; [exact EI|].
+    rewrite nth_set_gens. destruct (Nat.eqb_spec g0 g) as [->|N]; [|exact GS].
+    exfalso. apply NI. rewrite <- ppids_pending. apply In_ppids. eauto.
+  - exact ND''.
+  - intros g GS. rewrite nth_set_gens in GS.
+    destruct (Nat.eqb_spec g0 g) as [->|N]; cbn [andb] in GS.
+    + destruct (Nat.ltb g (length (i_gens s))) eqn:L; [congruence|].
+      apply Nat.ltb_ge in L. unfold gen_of in *. rewrite nth_overflow in GS by exact L. discriminate.
+    + apply SL in GS. apply (Permutation_in _ PP) in GS. destruct GS as [Q|Q]; [congruence|exact Q].
+Qed.
+
+Lemma ginv_same tg s l' st clk nx :
+  ginv tg s -> heap_ok l' -> Permutation (pending (i_sched s)) (pending l') ->
+  ginv tg (mkI l' (i_gens s) st false clk nx).
+Proof.
+  intros [[IO IH] OWN ND SL] H' P.
+  split; cbn [i_sched i_gens i_owner]; unfold gen_of; cbn [i_gens].
+  - split; auto.
+  - intros u IU. apply OWN. apply (Permutation_in _ (Permutation_sym P)). exact IU.
+  - eapply Permutation_NoDup; [apply ppids_same; exact P|exact ND].
+  - intros g GS. apply (Permutation_in _ (ppids_same _ _ P)). apply SL. exact GS.
+Qed.
+
+Lemma ginv_gen tg s g x : ginv tg s -> gen_of s g <> GSleeping -> x <> GSleeping -> ginv tg (set_gen s g x).
+Proof.
+  intros [[IO IH] OWN ND SL] NS NX.
+  split; cbn [set_gen i_sched i_gens i_owner]; auto.
+  - split; auto.
+  - intros u IU. destruct (OWN u IU) as (g' & EG & EI & GS). exists g'. split; [exact EG|]. split; [exact EI|].
+    rewrite gen_of_set. destruct (Nat.eqb_spec g g') as [->|N]; [congruence|exact GS].
+  - intros g' GS. rewrite gen_of_set in GS. destruct (Nat.eqb_spec g g') as [->|N]; cbn [andb] in GS.
+    + destruct (Nat.ltb g' (length (i_gens s))); [congruence|]. apply SL. exact GS.
+    + apply SL. exact GS.
+Qed.
+
+Lemma ginv_stops tg s st : ginv tg s -> ginv tg (mkI (i_sched s) (i_gens s) st (i_owner s) (i_clk s) (i_next s)).
+Proof. intros [[IO IH] OWN ND SL]. split; auto. split; auto. Qed.
+
+Lemma ginv_sched tg s g tp clk nx : ginv tg s -> gen_of s g <> GSleeping -> (g < length (i_gens s))%nat ->
+  ginv tg (mkI (fst (schedule (i_sched s) (mkE tp (Some g) (tg g)))) (set_nth (i_gens s) g GSleeping) (i_stops s) false clk nx).
+Proof.
+  intros [[IO IH] OWN ND SL] NS LT. cbn [schedule fst]. set (e := mkE tp (Some g) (tg g)).
+  destruct (heap_push_ok (i_sched s) e IH) as (H1 & P1 & _).
+  assert (Permutation (ppids (heap_push (i_sched s) e)) (g :: ppids (i_sched s))) as PP by (apply ppids_perm in P1; exact P1).
+  assert (~ In g (ppids (i_sched s))) as NI.
+  { intros Q. destruct (in_ppids_pending _ _ Q) as (u & IU & EU). destruct (OWN u IU) as (g' & EG & _ & GS). congruence. }
+  apply Nat.ltb_lt in LT.
+  split; cbn [i_sched i_gens i_owner]; unfold gen_of; cbn [i_gens].
+  - split; auto.
+  - intros u IU. apply (Permutation_in _ (pending_perm _ _ P1)) in IU.
+    rewrite (pending_cons_live e) in IU by reflexivity. destruct IU as [<-|IU].
+    + exists g. cbn [e_p e_id e]. split; [reflexivity|]. split; [reflexivity|].
+      rewrite nth_set_gens, Nat.eqb_refl, LT. reflexivity.
+    + destruct (OWN u IU) as (g' & EG & EI & GS). exists g'. split; [exact EG|]. split; [exact EI|].
+      rewrite nth_set_gens. destruct (Nat.eqb_spec g g') as [->|N]; [rewrite LT; reflexivity|exact GS].
+  - eapply Permutation_NoDup; [symmetry; exact PP|]. constructor; assumption.
+  - intros g' GS. apply (Permutation_in _ (Permutation_sym PP)). rewrite nth_set_gens in GS.
+    destruct (Nat.eqb_spec g g') as [->|N]; [left; reflexivity|right; apply SL; exact GS].
+Qed.
+
+(* what generator g's stop callback does when idents are pairwise distinct *)
+Lemma stop_callback_own tg s g : (forall a b, tg a = tg b -> a = b) -> ginv tg s ->
+  exists s1, stop_callback false tg s g = IOk s1 [] /\ ginv tg s1 /\ i_stops s1 = i_stops s /\
+    (gen_of s g = GSleeping ->
+       exists t, In t (pending (i_sched s)) /\ e_p t = Some g /\ e_id t = tg g /\
+                 Permutation (pending (i_sched s)) (t :: pending (i_sched s1)) /\ gen_of s1 g = GDone) /\
+    (gen_of s g <> GSleeping -> Permutation (pending (i_sched s)) (pending (i_sched s1)) /\ i_gens s1 = i_gens s) /\
+    (forall g', g' <> g -> gen_of s1 g' = gen_of s g').
+Proof.
+  intros INJ G. pose proof G as [I OWN ND SL].
+  destruct (stop_callback_ok tg s g I) as (s1 & E & I1 & ES & EC & EN & l & r & ER & SP & EL & EG).
+  exists s1. split; [exact E|].
+  assert (s1 = mkI l (i_gens s1) (i_stops s) false (i_clk s) (i_next s)) as SH.
+  { destruct s1 as [a b c d e f]. cbn [i_sched i_stops i_clk i_next i_gens] in *. destruct I1 as [IO1 _]. cbn [i_owner] in IO1. subst. reflexivity. }
+  destruct r as [t|]; cbn [remove_spec] in SP.
+  - destruct SP as (LT & EI & P).
+    assert (In t (pending (i_sched s))) as IT by (apply (Permutation_in _ (Permutation_sym P)); left; reflexivity).
+    destruct (OWN t IT) as (g2 & EP & EI2 & GS2). assert (g2 = g) by (apply INJ; congruence). subst g2.
+    rewrite EP in EG.
+    assert (ginv tg s1) as G1.
+    { rewrite SH, EG. apply (ginv_take tg s l t g GDone); auto. destruct I1 as [_ H1]. rewrite EL in H1. exact H1. discriminate. }
+    split; [exact G1|]. split; [exact ES|]. split; [|split].
+    + intros _. exists t. rewrite EL. repeat split; auto.
+      unfold gen_of. rewrite EG, nth_set_gens, Nat.eqb_refl. pose proof (sleeping_lt s g GS2) as L. apply Nat.ltb_lt in L. rewrite L. reflexivity.
+    + intros NS. congruence.
+    + intros g' N. unfold gen_of. rewrite EG, nth_set_gens. destruct (Nat.eqb_spec g g'); [congruence|reflexivity].
+  - destruct SP as (P & NO).
+    assert (gen_of s g <> GSleeping) as NS.
+    { intros GS. apply SL in GS. destruct (in_ppids_pending _ _ GS) as (u & IU & EU).
+      destruct (OWN u IU) as (g2 & EP & EI2 & _). assert (g2 = g) by congruence. subst g2. apply (NO u IU EI2). }
+    assert (ginv tg s1) as G1.
+    { rewrite SH, EG. apply ginv_same; auto. destruct I1 as [_ H1]. rewrite EL in H1. exact H1. }
+    split; [exact G1|]. split; [exact ES|]. split; [intros GS; contradiction|]. split.
+    + intros _. rewrite EL. auto.
+    + intros g' _. unfold gen_of. rewrite EG. reflexivity.
+Qed.
+
+Lemma istep'_ginv tg s x : (forall a b, tg a = tg b -> a = b) -> ginv tg s ->
+  exists s1 ob, istep' false tg s x = IOk s1 ob /\ ginv tg s1.
+Proof.
+  intros INJ G. pose proof G as [I OWN ND SL]. pose proof I as [IO IH].
+  destruct x as [g|g|g| |]; cbn [istep'].
+  - destruct (gen_of s g) eqn:GG; try (eexists _, _; (split; [reflexivity|]); exact G).
+    eexists _, _. split; [reflexivity|]. apply ginv_gen; [exact G|congruence|discriminate].
+  - destruct (gen_of s g) eqn:GG; try (eexists _, _; (split; [reflexivity|]); exact G).
+    + assert (g < length (i_gens s))%nat as LT.
+      { unfold gen_of in GG. destruct (Nat.lt_ge_cases g (length (i_gens s))) as [L|L]; [exact L|]. rewrite nth_overflow in GG by exact L. discriminate. }
+      destruct (stop_of s g).
+      * destruct (stop_callback_own tg s g INJ G) as (s1 & E & G1 & _ & _ & NSL & OTH). rewrite E.
+        eexists _, _. split; [reflexivity|]. apply ginv_gen; [exact G1| |discriminate].
+        assert (gen_of s g <> GSleeping) as NS by congruence. destruct (NSL NS) as (_ & EG). unfold gen_of. rewrite EG. exact NS.
+      * eexists _, _. split; [reflexivity|]. apply ginv_sched; [exact G|congruence|exact LT].
+    + assert (g < length (i_gens s))%nat as LT.
+      { unfold gen_of in GG. destruct (Nat.lt_ge_cases g (length (i_gens s))) as [L|L]; [exact L|]. rewrite nth_overflow in GG by exact L. discriminate. }
+      destruct (stop_of s g); eexists _, _; (split; [reflexivity|]).
+      * apply ginv_gen; [exact G|congruence|discriminate].
+      * apply ginv_sched; [exact G|congruence|exact LT].
+  - destruct (stop_of s g); [eexists _, _; split; [reflexivity|exact G]|].
+    set (s0 := mkI (i_sched s) (i_gens s) (set_nth (i_stops s) g true) (i_owner s) (i_clk s) (i_next s)).
+    assert (ginv tg s0) as G0 by (apply ginv_stops; exact G).
+    destruct (stop_callback_own tg s0 g INJ G0) as (s1 & E & G1 & _).
+    destruct (gen_of s g); try (eexists _, _; (split; [reflexivity|]); exact G0).
+    all: rewrite E; eexists _, _; (split; [reflexivity|]); exact G1.
+  - unfold acquire. rewrite IO. cbn [i_sched i_clk].
+    destruct (get_expired_ok (i_sched s) (i_clk s) IH) as (l' & r & E & H' & _ & SP). rewrite E.
+    destruct r as [t|tp|]; cbn [expired_spec] in SP.
+    + destruct SP as (LT & _ & P & _). destruct (proj1 (live_some t) LT) as [g' EP]. rewrite EP.
+      eexists _, _. split; [reflexivity|]. apply (ginv_take tg s l' t g' GYielded); auto. discriminate.
+    + destruct SP as (_ & P & _). eexists _, _. split; [reflexivity|]. apply ginv_same; auto.
+    + destruct SP as (-> & EP). eexists _, _. split; [reflexivity|]. apply ginv_same; auto using heap_ok_nil. rewrite EP. reflexivity.
+  - eexists _, _. split; [reflexivity|exact G].
 Qed.
 
 (* the state the interval scenario is in after a list of operations *)
-Fixpoint istate (s : ist) (ops : list (list Z)) : ist :=
+Fixpoint istate (tg : nat -> Z) (s : ist) (ops : list (list Z)) : ist :=
   match ops with
   | [] => s
-  | o :: t => match istep false s o with IOk s1 _ => istate s1 t | _ => s end
+  | o :: t => match istep false tg s o with IOk s1 _ => istate tg s1 t | _ => s end
   end.
 
-Lemma istate_inv ops : forall s, iinv2 s -> iinv2 (istate s ops).
+Lemma ginv0 tg : ginv tg ist0.
 Proof.
-  induction ops as [|o t IH]; intros s I; cbn [istate]; [exact I|].
-  destruct (istep_ok2 s o I) as (s1 & ob & E & I1). rewrite E. apply IH. exact I1.
+  split; cbn; auto.
+  - split; [reflexivity|apply heap_ok_nil].
+  - intros t [].
+  - constructor.
+  - intros g GS. unfold gen_of in GS. destruct g as [|[|[|[|g]]]]; cbn in GS; discriminate.
 Qed.
 
-(* (cancellation through a stop token) after ANY sequence of generator calls / get_expired / earlier stops:
-   request_stop() returns; if the generator is asleep, exactly its pending sleep (the one carrying &tag) is cancelled,
-   nothing stays pending and the generator finishes (its tick future becomes ready without a value: observation 2);
-   otherwise nothing pending exists and nothing changes *)
-Theorem interval_stop_cancels ops : let s := istate ist0 ops in
-  i_stop s = false ->
-  exists s1 ob, istep false s [3] = IOk s1 ob /\ i_stop s1 = true /\ i_owner s1 = false /\
-    (i_gen s = GSleeping ->
-       (exists t, pending (i_sched s) = [t] /\ e_id t = tag) /\ pending (i_sched s1) = [] /\ i_gen s1 = GDone /\
-       ob = [0; 2; Z.of_nat (length (i_sched s1))]) /\
-    (i_gen s <> GSleeping ->
-       pending (i_sched s) = [] /\ pending (i_sched s1) = [] /\ i_gen s1 = i_gen s /\
-       ob = [0; 0; Z.of_nat (length (i_sched s1))]).
+Lemma istate_ginv tg ops : (forall a b, tg a = tg b -> a = b) -> forall s, ginv tg s -> ginv tg (istate tg s ops).
 Proof.
-  cbn zeta. assert (iinv2 ist0) as I0 by (split; [split; [reflexivity|apply heap_ok_nil]|reflexivity]).
-  pose proof (istate_inv ops ist0 I0) as [[IO IH] GP]. set (s := istate ist0 ops) in *. intros ST.
-  cbn [istep]. rewrite ST.
-  destruct (remove_ok (i_sched s) tag IH) as (l' & r & E & H' & _ & _ & SP).
-  assert (stop_callback false (mkI (i_sched s) (i_gen s) true (i_owner s)) =
-          match r with Some _ => IOk (mkI l' GDone true false) [] | None => IOk (mkI l' (i_gen s) true false) [] end) as ES.
-  { unfold stop_callback, acquire. cbn [i_owner i_sched i_gen i_stop]. rewrite IO. cbn [i_owner i_sched i_gen i_stop].
-    rewrite E. destruct r; reflexivity. }
-  unfold gen_pending in GP.
-  destruct (i_gen s) eqn:G.
-  1,2,5: eexists _, _; (split; [reflexivity|]); cbn [i_stop i_owner i_sched i_gen]; (split; [reflexivity|]); (split; [exact IO|]);
-    (split; [discriminate|]); intros _; auto.
-  - rewrite ES. destruct GP as (t0 & EP & ET). destruct r as [t|]; cbn [remove_spec] in SP.
-    + destruct SP as (_ & _ & P). rewrite EP in P. apply perm_single in P.
-      eexists _, _. split; [reflexivity|]. cbn [i_stop i_owner i_sched i_gen]. split; [reflexivity|]. split; [reflexivity|].
-      split; [|intros Q; congruence]. intros _. split; [eauto|]. split; [inversion P; reflexivity|]. auto.
-    + exfalso. destruct SP as (_ & NO). apply (NO t0); [rewrite EP; left; reflexivity|exact ET].
-  - rewrite ES. destruct r as [t|]; cbn [remove_spec] in SP.
-    + exfalso. destruct SP as (_ & _ & P). rewrite GP in P. apply Permutation_nil in P. discriminate.
-    + destruct SP as (P & _). rewrite GP in P. apply Permutation_nil in P.
-      eexists _, _. split; [reflexivity|]. cbn [i_stop i_owner i_sched i_gen]. split; [reflexivity|]. split; [reflexivity|].
-      split; [discriminate|]. intros _. auto.
+  intros INJ. induction ops as [|o t IH]; intros s G; cbn [istate]; [exact G|].
+  unfold istep. destruct (istep'_ginv tg s (decode_iop o) INJ G) as (s1 & ob & E & G1). rewrite E. apply IH. exact G1.
 Qed.
+
+(* (cancellation through a stop token, N generators) distinct idents => after ANY sequence of operations on up to three
+   generators, request_stop() on generator g's source returns and
+     - if g is asleep: exactly ITS pending sleep (the entry whose promise belongs to g) is cancelled and g finishes;
+     - otherwise the pending set is unchanged and g keeps its state;
+     - every other generator keeps its state and its stop flag, and every other pending sleep stays pending. *)
+Theorem interval_stop_hits_own tg ops g : (forall a b, tg a = tg b -> a = b) ->
+  let s := istate tg ist0 ops in
+  stop_of s g = false ->
+  exists s1 ob, istep' false tg s (IStop g) = IOk s1 ob /\
+    (gen_of s g = GSleeping ->
+       exists t, In t (pending (i_sched s)) /\ e_p t = Some g /\ e_id t = tg g /\
+                 Permutation (pending (i_sched s)) (t :: pending (i_sched s1)) /\ gen_of s1 g = GDone) /\
+    (gen_of s g <> GSleeping -> Permutation (pending (i_sched s)) (pending (i_sched s1)) /\ gen_of s1 g = gen_of s g) /\
+    (forall g', g' <> g -> gen_of s1 g' = gen_of s g' /\ stop_of s1 g' = stop_of s g').
+Proof.
+  intros INJ. cbn zeta. pose proof (istate_ginv tg ops INJ ist0 (ginv0 tg)) as G.
+  set (s := istate tg ist0 ops) in *. intros ST. cbn [istep']. rewrite ST.
+  set (s0 := mkI (i_sched s) (i_gens s) (set_nth (i_stops s) g true) (i_owner s) (i_clk s) (i_next s)).
+  assert (ginv tg s0) as G0 by (apply ginv_stops; exact G).
+  assert (forall g', g' <> g -> nth g' (set_nth (i_stops s) g true) false = stop_of s g') as STO.
+  { intros g' N. unfold stop_of. rewrite nth_set_nth. destruct (Nat.eqb_spec g g'); [congruence|reflexivity]. }
+  destruct (stop_callback_own tg s0 g INJ G0) as (s1 & E & G1 & ES & SLP & NSL & OTH).
+  change (gen_of s0 g) with (gen_of s g) in *. change (i_sched s0) with (i_sched s) in *.
+  destruct (gen_of s g) eqn:GG.
+  1,2,5: eexists _, _; (split; [reflexivity|]); (split; [discriminate|]);
+    (split; [intros _; cbn [i_sched]; split; [reflexivity|unfold gen_of; cbn [i_gens]; exact GG]|]);
+    intros g' N; split; [reflexivity|unfold stop_of at 1; cbn [i_stops]; apply STO; exact N].
+  - rewrite E. eexists _, _. split; [reflexivity|]. split; [intros _; apply SLP; reflexivity|].
+    split; [intros Q; congruence|].
+    intros g' N. split; [apply (OTH g' N)|]. unfold stop_of at 1. rewrite ES. cbn [i_stops s0]. apply STO. exact N.
+  - rewrite E. eexists _, _. split; [reflexivity|]. split; [discriminate|].
+    assert (GYielded <> GSleeping) as NS by discriminate.
+    destruct (NSL NS) as (P & EG).
+    split; [intros _; split; [exact P|unfold gen_of; rewrite EG; exact GG]|].
+    intros g' N. split; [apply (OTH g' N)|]. unfold stop_of at 1. rewrite ES. cbn [i_stops s0]. apply STO. exact N.
+Qed.
+
+Lemma tag_inj a b : tag a = tag b -> a = b.
+Proof. unfold tag. lia. Qed.
+
+(* the code's idents (&tag of each generator's own frame) are distinct *)
+Corollary interval_stop_cancels ops g : let s := istate tag ist0 ops in
+  stop_of s g = false ->
+  exists s1 ob, istep' false tag s (IStop g) = IOk s1 ob /\
+    (gen_of s g = GSleeping ->
+       exists t, In t (pending (i_sched s)) /\ e_p t = Some g /\ e_id t = tag g /\
+                 Permutation (pending (i_sched s)) (t :: pending (i_sched s1)) /\ gen_of s1 g = GDone) /\
+    (gen_of s g <> GSleeping -> Permutation (pending (i_sched s)) (pending (i_sched s1)) /\ gen_of s1 g = gen_of s g) /\
+    (forall g', g' <> g -> gen_of s1 g' = gen_of s g' /\ stop_of s1 g' = stop_of s g').
+Proof. apply interval_stop_hits_own. exact tag_inj. Qed.
